@@ -225,8 +225,58 @@ def inventory(ctx) -> List[Site]:
                             else:
                                 s.slot = slots[0]
                                 s.use_stmt = stmt_of(fmt_call)
+                                prob = _text_reaches_output(fn, s.use_stmt)
+                                if prob:
+                                    s.problems.append(prob)
                 sites.append(s)
     return sites
+
+
+def _text_reaches_output(fn, st) -> str:
+    """The statement that builds the text embedding an allocated id either appends it to the output directly, or binds it
+    to a local that is appended in the same block with no `continue` / `break` / `return` (and no enclosing condition) in
+    between.  Otherwise an id is allocated - its routine and case are generated - but no .m file ever calls it."""
+    if isinstance(st, (ast.AugAssign, ast.Return)) or (isinstance(st, ast.Expr) and isinstance(st.value, ast.Call)
+                                                       and isinstance(st.value.func, ast.Attribute) and st.value.func.attr in ("append", "extend")):
+        return ""
+    if not (isinstance(st, ast.Assign) and len(st.targets) == 1 and isinstance(st.targets[0], ast.Name)):
+        return ""
+    var = st.targets[0].id
+    blk = None
+    p = parent(st)
+    for fld in ("body", "orelse", "finalbody"):
+        b = getattr(p, fld, None)
+        if isinstance(b, list) and st in b:
+            blk = b
+    if blk is None:
+        return ""
+    after = blk[blk.index(st) + 1:]
+
+    def consumes(x) -> bool:
+        if isinstance(x, ast.AugAssign) and any(isinstance(n, ast.Name) and n.id == var for n in ast.walk(x.value)):
+            return True
+        if isinstance(x, ast.Expr) and isinstance(x.value, ast.Call) and isinstance(x.value.func, ast.Attribute) \
+                and x.value.func.attr in ("append", "extend") and any(isinstance(n, ast.Name) and n.id == var for n in ast.walk(x.value)):
+            return True
+        if isinstance(x, ast.Return) and x.value is not None and any(isinstance(n, ast.Name) and n.id == var for n in ast.walk(x.value)):
+            return True
+        if isinstance(x, ast.Assign):
+            # folded into a bigger text (operand of +, argument of format/join/reduce, f-string field, list element):
+            # that text's own fate is followed from its statement.  Merely *inspecting* the text (var.splitlines()[0]) is not.
+            for n in ast.walk(x.value):
+                if isinstance(n, ast.Name) and n.id == var:
+                    q = parent(n)
+                    if isinstance(q, (ast.BinOp, ast.FormattedValue, ast.List, ast.Tuple, ast.keyword)) or \
+                            (isinstance(q, ast.Call) and n in q.args):
+                        return True
+        return False
+    for x in after:
+        if consumes(x):
+            return ""
+        if any(isinstance(n, (ast.Continue, ast.Break, ast.Return, ast.Raise)) for n in ast.walk(x)):
+            return (f"the text holding the id is bound to `{var}` and can be dropped before it is appended (line {x.lineno}: "
+                    f"{unparse(x)[:50]!r}): the id is allocated and its routine generated, but no call site exists")
+    return ""
 
 
 def _gateway_position(t: Tpl, slot: Slot) -> Tuple[bool, str]:
@@ -546,6 +596,12 @@ class LoopExec:
                 b = self.ev(e.func.value)
                 if isinstance(b, (_Owner, _Sym)):
                     return _Sym(f"{b.tag if isinstance(b, _Owner) else b}.{e.func.attr}()")
+            if isinstance(e.func, ast.Attribute) and isinstance(e.func.value, ast.Name) and e.func.value.id == "self" and not e.keywords:
+                # a naming helper applied to symbolic values: a symbol of its own (two sites agree iff they apply the same helper
+                # to the same values)
+                vals = [self.ev(a) for a in e.args]
+                if all(isinstance(v, (_Owner, _Sym, str, int)) for v in vals):
+                    return _Sym(f"{e.func.attr}({', '.join(v.tag if isinstance(v, _Owner) else str(v) for v in vals)})")
             raise AnalysisError(f"replay loop: call {f} is not modelled")
         raise AnalysisError(f"replay loop: expression {type(e).__name__} is not modelled")
 
@@ -622,7 +678,14 @@ def rule_replay_loops(ctx, rep: Report, rid="I5"):
             else:
                 want[i] = ("upcast", _Sym(wmap[i].owner_name), i)   # the .m up-cast call uses the higher id
         got = {i: cases.get(i) for i in range(n)}
-        rep.add(rid, f"{label}:each case calls the routine of the same map entry / the up-cast of the pair", got == want,
+        # the spelling of the up-cast routine's name is free as long as definition and call agree (checked below);
+        # what is fixed here is *which* entry's up-cast a reserved id reaches
+        def norm(v):
+            return ("upcast", "<name>", v[2]) if isinstance(v, tuple) and len(v) == 3 and v[0] == "upcast" else v
+        owners_ok = all(not (isinstance(got.get(i), tuple) and got[i][0] == "upcast") or
+                        (wmap[i].owner_name in str(got[i][1]) or wmap[i].tag in str(got[i][1])) for i in range(n) if i in wmap)
+        rep.add(rid, f"{label}:each case calls the routine of the same map entry / the up-cast of the pair",
+                {k: norm(v) for k, v in got.items()} == {k: norm(v) for k, v in want.items()} and owners_ok,
                 f"dispatch {got}, expected {want}", loc)
         called = set(cases.values())
         loc2 = f"{ci.mod.rel}:{prog.method('MatlabWrapper', 'generate_wrapper').lineno}"
